@@ -4,6 +4,7 @@ import (
 	"crypto/x509"
 	"encoding/json"
 	"fmt"
+	"net/http"
 	"os"
 	"os/exec"
 	"path/filepath"
@@ -44,6 +45,9 @@ type Case struct {
 	Threads    [][]Op `json:"threads"`
 	Yield      []int  `json:"yield"` // microseconds slept at successive hook sites (cyclic); 0 = Gosched
 	Entries    int    `json:"entries"`
+	// Flaky: once the goroutines run, the first Flaky requests to every location are answered with an error page
+	// (the list follows on the next request): concurrent first-use handshakes of which one fails and the next succeeds
+	Flaky int `json:"flaky,omitempty"`
 }
 
 func genCase(t *rapid.T) Case {
@@ -58,6 +62,7 @@ func genCase(t *rapid.T) Case {
 		Cleanup:    rapid.IntRange(0, 3).Draw(t, "cleanup") == 0,
 		Yield:      rapid.SliceOfN(rapid.SampledFrom([]int{0, 0, 20, 200, 1000}), 1, 6).Draw(t, "yield"),
 		Entries:    rapid.SampledFrom([]int{1, 30, 1500}).Draw(t, "entries"),
+		Flaky:      rapid.SampledFrom([]int{0, 0, 1, 1, 2}).Draw(t, "flaky"),
 	}
 	n := rapid.IntRange(2, 16).Draw(t, "threads")
 	for g := 0; g < n; g++ {
@@ -190,8 +195,14 @@ func runScenario(c Case) (res childResult) {
 		ch.VerifForceUpdate()
 		o.Serve(locs[0].path, oldList())
 	}
-	var hookN atomic.Int64
-	verifhook.Set(func(string) {
+	var hookN, updStart, updDone atomic.Int64
+	verifhook.Set(func(site string) {
+		switch site {
+		case "checker.update.start":
+			updStart.Add(1)
+		case "checker.update.done":
+			updDone.Add(1)
+		}
 		d := c.Yield[int(hookN.Add(1))%len(c.Yield)]
 		if d == 0 {
 			runtime.Gosched()
@@ -203,6 +214,27 @@ func runScenario(c Case) (res childResult) {
 
 	var published, cleaned atomic.Bool
 	var everNew atomic.Bool
+	// flaky origin: per location the first c.Flaky requests (from now on) get an error page
+	errPages := make([]atomic.Int64, len(locs))
+	okListed := make([]atomic.Int64, len(locs))
+	if c.Flaky > 0 {
+		for i, l := range locs {
+			i := i
+			var seen atomic.Int64
+			o.Set(l.path, func(w http.ResponseWriter, r *http.Request, _ []byte, _ int) {
+				if int(seen.Add(1)) <= c.Flaky {
+					errPages[i].Add(1)
+					w.Write([]byte("<html>502 bad gateway</html>"))
+					return
+				}
+				if published.Load() {
+					w.Write(newList())
+				} else {
+					w.Write(oldList())
+				}
+			})
+		}
+	}
 	writers := map[int]int{}
 	touch := map[int]map[int]bool{}
 	for g, ops := range c.Threads {
@@ -230,8 +262,10 @@ func runScenario(c Case) (res childResult) {
 			defer wg.Done()
 			for i, op := range ops {
 				if g == 0 && i == c.Publish {
-					for _, l := range locs {
-						o.Serve(l.path, newList())
+					if c.Flaky == 0 {
+						for _, l := range locs {
+							o.Serve(l.path, newList())
+						}
 					}
 					published.Store(true)
 				}
@@ -267,7 +301,10 @@ func runScenario(c Case) (res childResult) {
 					case "ok":
 						// probe 0 names the CDP: in active fetch mode the list is loaded before the verdict (origin healthy)
 						if op.Probe == 0 && !c.Background && !cleanBefore && !cleaned.Load() && !c.BadPrefix {
-							fail("serial listed in both lists was accepted by a handshake naming the CDP in fetch_actively mode (loc %d)", op.Loc)
+							if c.Flaky == 0 {
+								fail("serial listed in both lists was accepted by a handshake naming the CDP in fetch_actively mode (loc %d)", op.Loc)
+							}
+							okListed[op.Loc].Add(1) // legitimate only for a handshake whose own download got an error page (judged below)
 						}
 					}
 				case "tick":
@@ -333,6 +370,33 @@ func runScenario(c Case) (res childResult) {
 	case <-done:
 	case <-time.After(2 * refreshWatchdog):
 		fail("goroutines did not finish")
+	}
+	if c.Background && c.Flaky == 0 && !c.Cleanup && violation.Load() == nil {
+		// fetch_background: every location a handshake announced is fetched by a forced refresh that the announcement
+		// itself triggers - without waiting for the next periodic tick. Once no refresh run is under way any more, a
+		// handshake naming an announced location must find its list in force.
+		deadline := time.Now().Add(refreshWatchdog)
+		for stable := 0; stable < 3 && time.Now().Before(deadline); {
+			// (a forced refresh is spawned as a goroutine by the handshake: give it a moment to start)
+			time.Sleep(15 * time.Millisecond)
+			if updStart.Load() == updDone.Load() {
+				stable++
+			} else {
+				stable = 0
+			}
+		}
+		for loc := range touch {
+			if v := world.Ask(ch, locs[loc].probes[0]); v.Kind != "revoked" {
+				fail("fetch_background: location %d was announced by a handshake, no refresh run is under way any more, and the serial listed in both lists still answers %v: the forced refresh for the new location was dropped", loc, v)
+			}
+		}
+	}
+	if c.Flaky > 0 && !c.Background && !c.BadPrefix && !c.Cleanup {
+		for i := range locs {
+			if ok, pages := okListed[i].Load(), errPages[i].Load(); ok > pages {
+				fail("location %d: %d handshakes naming the CDP accepted the serial listed in both lists, but only %d downloads of the location got an error page: a handshake whose own download delivered the list answered 'not revoked'", i, ok, pages)
+			}
+		}
 	}
 	if !c.Cleanup {
 		cleaned.Store(true)
@@ -431,7 +495,7 @@ var spec = ev.Spec[Case]{
 	ID:          "C13",
 	Gen:         genCase,
 	Run:         runCase,
-	Rule:        "rapid draws a concurrent scenario: 2..16 goroutines with 2..12 operations each from {handshake(one of 1..3 locations; probe listed in both lists / only in the new list / unlisted / listed but naming no CDP), refresh tick, forced (background-style) refresh, config-CRL update, OCSP lookup with a 50 ms cache while the responder flips, pause}, both back-ends, both fetch modes, strict or lenient, optionally location 0 also configured as crl_url, optionally the prefix state 'last refresh failed signature verification', publication of a new list at a drawn point, Cleanup during or after the run, list sizes 1..1500, and sleeps/yields at the verif hook sites. Each scenario runs in its own child process built with -race. Oracles: the race detector log is empty; the child exits normally (no fatal error, no panic); every API call returns within the watchdog; verdicts are ones a sequential order could produce (unlisted never revoked, new-only never revoked before publication, a handshake naming the CDP in fetch_actively mode never accepts a serial listed in both lists, no errors in lenient mode before shutdown). Non-trivial: >= 2 goroutines touch the same location and a writer (refresh / publication) is present. This explores schedules; it does not cover them.",
+	Rule:        "rapid draws a concurrent scenario: 2..16 goroutines with 2..12 operations each from {handshake(one of 1..3 locations; probe listed in both lists / only in the new list / unlisted / listed but naming no CDP), refresh tick, forced (background-style) refresh, config-CRL update, OCSP lookup with a 50 ms cache while the responder flips, pause}, both back-ends, both fetch modes, strict or lenient, optionally location 0 also configured as crl_url, optionally the prefix state 'last refresh failed signature verification', publication of a new list at a drawn point, Cleanup during or after the run, list sizes 1..1500, optionally an origin whose first 1..2 requests per location get an error page, and sleeps/yields at the verif hook sites. Each scenario runs in its own child process built with -race. Oracles: the race detector log is empty; the child exits normally (no fatal error, no panic); every API call returns within the watchdog; verdicts are ones a sequential order could produce (unlisted never revoked, new-only never revoked before publication, a handshake naming the CDP in fetch_actively mode never accepts a serial listed in both lists (with the flaky origin: at most as many such acceptances per location as downloads that got an error page), no errors in lenient mode before shutdown; in fetch_background mode, once no refresh run is under way, every location a handshake announced is in force without any periodic tick). Non-trivial: >= 2 goroutines touch the same location and a writer (refresh / publication) is present. This explores schedules; it does not cover them.",
 	Assumptions: []string{"the Go race detector is the oracle for data races; schedules are sampled, not enumerated"},
 }
 
